@@ -12,11 +12,11 @@ TECH = "deterministic simulation with fault injection"
 CHECKS = {
  "C01": dict(cat="exploration", sec="5 HashMgrSim",
    text="Seeded search over client interleavings, segmentations, flush placement, context reuse and all 28 (algorithm, family) pairs; every COMPLETE hand-back is compared with an independent reference hash of the accepted segments. Sampling of histories, not proof.",
-   note="Reference hashes (written from the standards, vector-checked at start-up) are trusted; messages bounded (mostly <= 8 KiB, rarely 1 MiB), <= 200 ops per run.",
+   note="Reference hashes (written from the standards, vector-checked at start-up) are trusted; completed messages bounded (mostly <= 8 KiB, rarely 1 MiB; one run in 12 also keeps a never-finished 2^30..2^32-1 byte segment in flight), <= 330 ops per run.",
    tech=TECH + ": HashMgrSim, reference-model oracle per completed job"),
  "C06": dict(cat="exploration", sec="5 HashMgrSim",
    text="Conservation/drain invariants evaluated after every submit/flush of every simulated history (exactly-once hand-back, never PROCESSING, capacity <= lanes, flush NULL iff empty, drain liveness bounded in calls, user_data and buffers untouched).",
-   note="Lane capacity per family is read from the family's manager-init code; in-flight bookkeeping is the model's (submit returned something other than the submitted context).",
+   note="Lane capacity per family is read from the family's manager-init code; in-flight bookkeeping is the model's (submit returned something other than the submitted context). 28 runs per quick batch (one per pair) flush a single 2^30-byte ENTIRE segment to the end.",
    tech=TECH + ": HashMgrSim, manager model invariants after every step"),
  "C11": dict(cat="exploration", sec="5 HashMgrSim",
    text="Misuse faults (bad flags / already processing / already completed) injected at arbitrary manager states; byte images of manager and all other contexts compared before/after, API-defined state of the rejected context compared, and every later valid call through isal_* must return 0 and every job must still verify.",
@@ -27,7 +27,7 @@ CHECKS = {
    note="The model follows the property text; the byte order of the final hash's input (native little-endian words in [word][segment] layout) is taken from the pinned implementation. Streams mostly <= 64 KiB.",
    tech=TECH + ": StreamSim (fragmenting transport), reference-model oracle at finalize"),
  "C07": dict(cat="exploration", sec="5 StreamSim",
-   text="AES-GCM init/update*/finalize under arbitrary update splits (every carried-partial x fragment-residue cell reachable), both key sizes, four families, enc/dec, in/out of place, _nt under its documented rule, contexts sharing key data, mid-message restarts; output bytes and tag compared with the one-shot call of the same family.",
+   text="AES-GCM init/update*/finalize under arbitrary update splits (every carried-partial x fragment-residue cell reachable), both key sizes, four families, enc/dec, in/out of place, _nt under its documented rule, contexts sharing key data, mid-message restarts; output bytes and tag compared with the one-shot call of the same family; 8 runs per quick batch carry a message longer than 2^32 bytes (one-shot, one update call, pieces below 2^32 must agree).",
    note="The one-shot entry point of the same family is the oracle (its own correctness is C02, not claimed). Key data produced by the same family's precompute.",
    tech=TECH + ": StreamSim, one-shot call as reference model"),
  "C09": dict(cat="exploration", sec="5 StreamSim",
@@ -75,7 +75,7 @@ CHECKS = {
    tech=TECH + ": FipsGateSim, enumeration of entry point x fault kind with seeded sequences"),
  "C17": dict(cat="exploration", sec="5 FipsRaceSim",
    text="FIPS_MODE=y build. 1-8 coroutine tasks race through the real check/claim/spin/publish assembly (yield points from hook H4) under seeded uniform, bursty and PCT-style schedules with injected verdicts; history oracle: self-tests entered exactly once by one task, no success return and no kernel entry before the tests finished and passed, identical verdict for every call, bounded completion after the verdict is published.",
-   note="Sequentially consistent interleavings at shared-access granularity; x86-TSO store buffering not modelled. Liveness bounded in scheduling steps under a fair fallback scheduler. fips/self_tests_generic.c (non-x86, not in the x86_64 archive) is simulated as a second implementation with shimmed C11 atomics in 1 run of 4.",
+   note="Sequentially consistent interleavings at shared-access granularity, with unlocked read-modify-write instructions at the hooked points split into load and store (two bus cycles); x86-TSO store buffering not modelled. Liveness bounded in scheduling steps under a fair fallback scheduler. fips/self_tests_generic.c (non-x86, not in the x86_64 archive) is simulated as a second implementation with shimmed C11 atomics in 1 run of 4.",
    tech=TECH + ": FipsRaceSim, coroutine scheduler over hooked synchronisation points, history oracle"),
 }
 
